@@ -47,6 +47,10 @@ def generate(seed, stratum, tier):
                              spec_kw=kw, ops=ops, weights=weights, nops=(5, 40))
   if sibling:
     sc['sibling'] = True
+  if rng.random() < 0.25:
+    # a small queue: posts made by handlers during a step find it full or nearly full (the event being handled has
+    # already left it); overflow displaces as a bounded deque does
+    sc['queue_size'] = rng.choice([2, 3, 4, 6])
   if rng.random() < 0.3:
     # live output switched on: it must not change which events a step or a circuit dispatches
     sc['live_spy'], sc['live_trace'] = rng.choice([(True, False), (False, True), (True, True)])
